@@ -47,6 +47,10 @@ pub struct AnnotSheet {
     pub header: Option<String>,
     pub footer: Option<String>,
     pub protection: Option<SheetProtSpec>,
+    /// a table (not an item of the statement, never compared): its part takes a relationship
+    /// id of the sheet like hyperlinks, printer settings and comments do
+    #[serde(default)]
+    pub table: Option<RectSpec>,
 }
 
 /// c1 <= c2, r1 <= r2 (1-based, inclusive)
@@ -930,6 +934,15 @@ fn build_sheet(ws: &mut Worksheet, s: &AnnotSheet) {
     if let Some(h) = &s.footer {
         ws.get_header_footer_mut().get_odd_footer_mut().set_value(h.clone());
     }
+    if let Some(t) = &s.table {
+        // table names are unique in the workbook: derived from the sheet id
+        let mut table = Table::new(&format!("Table_{}", ws.get_sheet_id()), ((t.c1, t.r1), (t.c2, t.r2)));
+        for c in t.c1..=t.c2 {
+            table.add_column(TableColumn::new(&format!("Col{}", c)));
+            ws.get_cell_mut((c, t.r1)).set_value_string(format!("Col{}", c));
+        }
+        ws.add_table(table);
+    }
     if let Some(pr) = &s.protection {
         let sp = ws.get_sheet_protection_mut();
         for (i, f) in pr.flags.iter().enumerate() {
@@ -1495,6 +1508,7 @@ pub fn annot_sheet(max: usize, feat: Feat) -> BoxedStrategy<AnnotSheet> {
             header,
             footer,
             protection,
+            table: None,
         })
         .boxed()
 }
@@ -1585,8 +1599,8 @@ pub fn annot_wb(tier: Tier, feat: Feat) -> BoxedStrategy<AnnotWb> {
 pub fn links_wb(tier: Tier) -> BoxedStrategy<AnnotWb> {
     let _ = tier;
     let target = prop_oneof![
-        6 => url().prop_map(|u| (false, u)),
-        1 => location().prop_map(|l| (true, l)),
+        5 => url().prop_map(|u| (false, u)),
+        2 => location().prop_map(|l| (true, l)),
     ];
     let links = prop::collection::vec((col_pos(), row_pos(), target, prop::option::weighted(0.3, nonempty_text(12))), 2..=24).prop_map(|v| {
         let mut seen = BTreeSet::new();
@@ -1595,7 +1609,8 @@ pub fn links_wb(tier: Tier) -> BoxedStrategy<AnnotWb> {
             .map(|(col, row, (internal, target), tooltip)| LinkSpec { col, row, internal, target, tooltip })
             .collect::<Vec<_>>()
     });
-    let sheet = (links, prop::option::weighted(0.3, prop::collection::vec(any::<u8>(), 1..20)), sized_vec((col_pos(), row_pos(), author()).boxed(), 4)).prop_map(|(links, blob, comments)| {
+    let table = prop::option::weighted(0.25, (1u32..6, 1u32..6, 0u32..3, 1u32..4).prop_map(|(c, r, w, h)| RectSpec { c1: c, r1: r, c2: c + w, r2: r + h }));
+    let sheet = (links, prop::option::weighted(0.3, prop::collection::vec(any::<u8>(), 1..20)), sized_vec((col_pos(), row_pos(), author()).boxed(), 4), table).prop_map(|(links, blob, comments, table)| {
         let mut seen = BTreeSet::new();
         AnnotSheet {
             name: String::new(),
@@ -1625,6 +1640,7 @@ pub fn links_wb(tier: Tier) -> BoxedStrategy<AnnotWb> {
             header: None,
             footer: None,
             protection: None,
+            table,
         }
     });
     (sheet_names(3, 3), prop::collection::vec(sheet, 1..=3), any::<u16>())
